@@ -38,12 +38,8 @@ from .core import HarnessError, canonical_json, import_odl
 
 odl = import_odl()
 from odl.operator.operator import (  # noqa: E402
-    Operator, OperatorSum, OperatorComp, OperatorLeftScalarMult,
-    OperatorRightScalarMult, OperatorLeftVectorMult, OperatorRightVectorMult,
-    FunctionalLeftVectorMult)
+    OperatorSum, OperatorComp, OperatorRightScalarMult)
 from odl.space.pspace import ProductSpace  # noqa: E402
-from odl.set.sets import Field  # noqa: E402
-from odl.discr import DiscretizedSpace  # noqa: E402
 
 # exceptions that are the documented way of refusing a construction
 REJECT_EXC = (ValueError, TypeError, NotImplementedError)
@@ -52,7 +48,8 @@ REJECT_EXC = (ValueError, TypeError, NotImplementedError)
 class Node(object):
     """A built operator together with the operands it was built from."""
 
-    __slots__ = ('op', 'children', 'entry', 'desc', 'depth', 'available')
+    __slots__ = ('op', 'children', 'entry', 'desc', 'depth', 'available',
+                 'eps')
 
     def __init__(self, op, children, entry, desc):
         self.op = op
@@ -60,6 +57,7 @@ class Node(object):
         self.entry = entry
         self.desc = desc
         self.available = False     # set by the check: op.adjoint exists
+        self.eps = 0.0             # set by the check: coarsest precision
         self.depth = 1 + max([c.depth for c in children] + [0])
 
 
@@ -687,12 +685,9 @@ def _small_shape(draw, min_side=1, max_size=8, max_ndim=2):
     nd = draw(st.integers(1, max_ndim))
     if nd == 1:
         return [draw(st.integers(min_side, max_size))]
-    a = draw(st.integers(min_side, max(min_side, max_size // max(min_side,
-                                                                  1) // 1)))
-    a = min(a, max_size // min_side) if min_side else a
-    a = max(a, min_side)
-    hi = max(min_side, max_size // a)
-    b = draw(st.integers(min_side, hi))
+    # two axes with a * b <= max_size (at least min_side each)
+    a = draw(st.integers(min_side, max(min_side, max_size // min_side)))
+    b = draw(st.integers(min_side, max(min_side, max_size // a)))
     return [a, b]
 
 
@@ -1742,8 +1737,15 @@ def fam_derivs(draw):
                          wkinds=('none', 'const')))
     sdy['dtype'] = sdx['dtype']
     U = Universe(field, sdx, sdy)
-    kind = draw(st.sampled_from(['chain', 'chain', 'pwprod']))
-    if kind == 'pwprod':
+    kind = draw(st.sampled_from(['chain', 'chain', 'pwprod', 'gradient']))
+    if kind == 'gradient':
+        # derivative of the gradient of ||A x||^2 resp. <x, A x>
+        name = draw(st.sampled_from(['comp', 'quadratic']))
+        ran = 'X' if name == 'quadratic' else draw(st.sampled_from(
+            ['X', 'Y', ['pow', 'X', 2]]))
+        op = {'e': 'grad_deriv', 'name': name, 'x': draw(seeds()),
+              'args': [draw(_leaf(U, 'X', ran))]}
+    elif kind == 'pwprod':
         op = {'e': 'pwprod_deriv', 'x': draw(seeds()),
               'args': [draw(_leaf(U, 'X', 'X')), draw(_leaf(U, 'X', 'X'))]}
     else:
